@@ -57,6 +57,9 @@ type Options struct {
 	Kind    types.BasicKind
 	HasKind bool
 	BitSize int // bit size of the specialisation's type (0 for int/uint); erased in strconv calls
+	// PureCall names zero-side-effect accessor methods/functions whose calls may be
+	// forward-substituted like pure expressions (set by the index/shape rules).
+	PureCall func(name string) bool
 }
 
 type Canon struct {
@@ -260,6 +263,12 @@ func (c *Canon) pureExpr(e ast.Expr) bool {
 						}
 					}
 				}
+				if c.Opt.PureCall != nil && c.Opt.PureCall(sel.Sel.Name) {
+					return true
+				}
+			}
+			if id, ok := x.Fun.(*ast.Ident); ok && c.Opt.PureCall != nil && c.Opt.PureCall(id.Name) {
+				return true
 			}
 			pure = false
 			return false
